@@ -46,7 +46,7 @@ class C09(CFGProp):
         extra.append(Layer("suffix pair + one short production", G.suffix_triples,
                            policies=["natural@plain", "1@plain"]))
         extra.append(Layer("long production + used C#CNF#1, C#CNF#2", cnf2_shapes, policies=["natural@cnf2", "1@cnf2"]))
-        return cfg_layers(tier, adversarial=("cnf", "mixedval", "mixedter"), extra_quick=extra, extra_thorough=extra)
+        return cfg_layers(tier, adversarial=("cnf", "mixedval", "mixedter", "mixedcnf"), extra_quick=extra, extra_thorough=extra)
 
     def reference(self, case):
         r = self.ref_gram(case, "plain")
